@@ -136,6 +136,11 @@ pub fn repair(store: &TensorStore) -> Result<RepairStats> {
     #[cfg(neumann_verif)]
     tensor_store::verif_hooks::yield_point("blob.repair.counted");
     for orphan_key in orphan_keys {
+        // The chunk was unlocked since it was counted: an upload may have picked it up
+        let _guard = crate::gc::lock_chunk(&orphan_key);
+        if crate::gc::pending_count(crate::gc::store_id(store), &orphan_key) > 0 {
+            continue;
+        }
         if store.delete(&orphan_key).is_ok() {
             stats.orphans_deleted += 1;
         }
